@@ -83,7 +83,8 @@ class Evaluator:
         self._stack: List[Any] = []
         self._memo: Dict[tuple, T] = {}
         self.term_type: Dict[int, ClassInfo] = {}  # types of params etc.
-        self.callback_params: set = set()  # ids of param-bound terms entered via combinators
+        self.callback_params: set = set()
+        self.projection_of: Dict[int, List[T]] = {}  # ids of param-bound terms entered via combinators
 
     # ------------------------------------------------------------------ helpers
     def opaque(self, reason: str, node=None, frame: Optional[Frame] = None) -> T:
@@ -161,16 +162,16 @@ class Evaluator:
             if all(a is alts[0] for a in alts):
                 return alts[0]
             if not any(a.kind == "fn" for a in alts):
-                return mk("choice", v.args[0], v.args[1], alts)
+                return self._proj_of(mk("choice", v.args[0], v.args[1], alts), v)
         if k == "phi" and name not in ARRAY_METHODS:
             alts = [self.mk_attr(a, name, frame) for a in v.args[0]]
             if not any(a.kind == "fn" for a in alts):
-                return self.mk_phi(alts)
+                return self._proj_of(self.mk_phi(alts), v)
         if k in ("batched", "elem", "loopin", "leaf") and v.args[0].kind in ("construct", "update"):
             inner = self.mk_attr(v.args[0], name, frame)
-            return self.wrap(k, inner, v)
+            return self._proj_of(self.wrap(k, inner, v), v)
         if k == "loop":
-            return mk("loop", self.mk_attr(v.args[0], name, frame), self.mk_attr(v.args[1], name, frame))
+            return self._proj_of(mk("loop", self.mk_attr(v.args[0], name, frame), self.mk_attr(v.args[1], name, frame)), v)
         if k == "cls":
             ci = self.tree.classes.get(v.args[0])
             if ci is not None:
@@ -202,7 +203,14 @@ class Evaluator:
         elif v.kind == "attr" and v.args[0].kind == "self":
             # collaborator with several candidate classes: properties are not inlined
             pass
-        return mk("attr", v, name)
+        return self._proj_of(mk("attr", v, name), v)
+
+    def _proj_of(self, r: T, src: T) -> T:
+        """Remember that r is a projection (field / element) of src -- used by the stale-read rule to
+        recognise pieces of a value after attribute access has been distributed over a selection."""
+        if r is not src and r.kind not in ("const", "ext", "cls", "mod", "self", "param"):
+            self.projection_of.setdefault(r.id, []).append(src)
+        return r
 
     def wrap(self, kind: str, inner: T, like: Optional[T] = None) -> T:
         """elem / batched / leaf / loopin distributed over containers and records."""
@@ -271,16 +279,16 @@ class Evaluator:
                 if -len(fs) <= i < len(fs):
                     return fs[i][1]
         if k == "choice":
-            return self.mk_choice(v.args[0], v.args[1], [self.mk_proj(a, i, n) for a in v.args[2]])
+            return self._proj_of(self.mk_choice(v.args[0], v.args[1], [self.mk_proj(a, i, n) for a in v.args[2]]), v)
         if k == "phi":
-            return self.mk_phi([self.mk_proj(a, i, n) for a in v.args[0]])
+            return self._proj_of(self.mk_phi([self.mk_proj(a, i, n) for a in v.args[0]]), v)
         if k in ("batched", "elem", "leaf"):
-            return self.wrap(k, self.mk_proj(v.args[0], i, n))
+            return self._proj_of(self.wrap(k, self.mk_proj(v.args[0], i, n)), v)
         if k == "loop":
-            return mk("loop", self.mk_proj(v.args[0], i, n), self.mk_proj(v.args[1], i, n))
+            return self._proj_of(mk("loop", self.mk_proj(v.args[0], i, n), self.mk_proj(v.args[1], i, n)), v)
         if k == "loopin":
-            return mk("loopin", self.mk_proj(v.args[0], i, n), v.args[1])
-        return mk("proj", v, i)
+            return self._proj_of(mk("loopin", self.mk_proj(v.args[0], i, n), v.args[1]), v)
+        return self._proj_of(mk("proj", v, i), v)
 
     def mk_index(self, v: T, idx: T) -> T:
         if idx.kind == "const" and isinstance(idx.args[0], int) and not isinstance(idx.args[0], bool):
